@@ -50,7 +50,7 @@ func newHist(nout int) *hist {
 }
 
 func (h *hist) addInput(ch *Chan[int]) {
-	h.inputs = append(h.inputs, func() (bool, int, string) { return IsClosed(ch), Len(ch), NameOf(ch) })
+	h.inputs = append(h.inputs, func() (bool, int, string) { return IsClosed(ch), BufLen(ch), NameOf(ch) })
 }
 
 func regOutput[T any](h *hist, ch *Chan[T]) {
@@ -232,7 +232,7 @@ func init() {
 		o := &Outcome{Decoded: map[string]any{"items": counts, "caps": caps}}
 		f := s.Run(func() {
 			in := Named(Make[string](caps[0]), "in0")
-			h.inputs = append(h.inputs, func() (bool, int, string) { return IsClosed(in), Len(in), "in0" })
+			h.inputs = append(h.inputs, func() (bool, int, string) { return IsClosed(in), BufLen(in), "in0" })
 			h.order = append(h.order, "in0")
 			GoHarness("producer", func() {
 				for _, it := range itemsOf(0, counts[0]) {
@@ -323,7 +323,7 @@ func init() {
 			o := &Outcome{Decoded: map[string]any{"inputs": n, "items": counts, "caps": caps, "outer_cap": outerCap, "start_mode": mode}}
 			f := s.Run(func() {
 				outer := Named(Make[*Chan[int]](outerCap), "outer")
-				h.inputs = append(h.inputs, func() (bool, int, string) { return IsClosed(outer), Len(outer), "outer" })
+				h.inputs = append(h.inputs, func() (bool, int, string) { return IsClosed(outer), BufLen(outer), "outer" })
 				var ins []*Chan[int]
 				var prods []func()
 				for i := 0; i < n; i++ {
@@ -466,7 +466,7 @@ func init() {
 		f := s.Run(func() {
 			fn := func(a int) *Chan[int] {
 				c := Named(Make[int](capF), "f")
-				h.inputs = append(h.inputs, func() (bool, int, string) { return IsClosed(c), Len(c), "f" })
+				h.inputs = append(h.inputs, func() (bool, int, string) { return IsClosed(c), BufLen(c), "f" })
 				GoHarness("f-producer", func() {
 					for j := 0; j < nb; j++ {
 						Send(c, a*10+j)
